@@ -139,7 +139,7 @@ func init() {
 		x.needDurStr()
 		s := args[0].S
 		ok := mkEq("(durstr (strdur "+s+"))", s)
-		err := x.freshErr(st, "ParseDuration.err")
+		err := x.newErr(st, "ParseDuration.err")
 		st.assume(mkEq(mkEq(err.S, "0"), ok))
 		d := Value{K: KInt, T: fn.Signature.Results().At(0).Type(), S: mkIte(ok, "(strdur "+s+")", "0")}
 		return single(st, d, err)
